@@ -82,13 +82,19 @@ EXPORT errno_t _strzero_s_chk(char *dest, rsize_t dmax,
 
     /* null string to eliminate data */
     while (dmax && *dest) {
-        *dest = '\0';
+        *(volatile char *)dest = '\0';
         dmax--;
         dest++;
     }
 #ifdef SAFECLIB_STR_NULL_SLACK
-    if (!*dest)
-        memset(dest, 0, dmax);
+    if (!*dest) {
+        /* not memset: the compiler may drop it when dest is dead afterwards */
+        volatile char *vp = dest;
+        while (dmax) {
+            *vp++ = '\0';
+            dmax--;
+        }
+    }
 #endif
 
     return (EOK);
